@@ -44,11 +44,34 @@ def material(group, Rm):
 
 
 def make_law(case):
+    """The law object of a case.  With a `history` the object is NOT constructed with the case's parameters: it is built with
+    earlier values, used once (every solver method, so that anything an object might remember is filled in), and then brought
+    to the case's (= the reported) parameters through the setters the class offers (`K_p`, `K` / `K_prime`)."""
     if case["law"] == "neuber":
         import pylife.materiallaws.notch_approximation_law as nal
-        return nal.ExtendedNeuber(case["E"], case["K"], case["n"], case["Kp"])
-    import pylife.materiallaws.notch_approximation_law_seegerbeste as sb
-    return sb.SeegerBeste(case["E"], case["K"], case["n"], case["Kp"])
+        cls = nal.ExtendedNeuber
+    else:
+        import pylife.materiallaws.notch_approximation_law_seegerbeste as sb
+        cls = sb.SeegerBeste
+    h = case.get("history")
+    if not h:
+        return cls(case["E"], case["K"], case["n"], case["Kp"])
+    law = cls(case["E"], h["K0"], case["n"], h["Kp0"])
+    with warnings.catch_warnings():
+        warnings.simplefilter("ignore")
+        with np.errstate(all="ignore"):
+            for x in (float(h["warm"]), np.array([float(h["warm"]), -0.5 * float(h["warm"])])):
+                for name in ("stress", "stress_secondary_branch", "load", "load_secondary_branch"):
+                    try:
+                        getattr(law, name)(x if name.startswith("stress") else x / 2)
+                    except RuntimeError:
+                        pass
+    law.K_p = case["Kp"]
+    if h["via"] == "K":
+        law.K = case["K"]
+    elif h["via"] == "K_prime":
+        law.K_prime = case["K"]
+    return law
 
 
 def kind_of(case, branch):
@@ -168,6 +191,16 @@ def gen_case(rng, law=None, Kp=None, group=None, hi=None):
             "hi": [m * Rm for m in hi]}
 
 
+def add_history(rng, case):
+    """Turn a case into a history case: the same reported parameters, reached through the setters of a used object."""
+    law = case["law"]
+    Kp0 = rng.choice([k for k in (KPS if law == "neuber" else KPS[1:]) + [2.0, 5.0] if k != case["Kp"]])
+    via = rng.choice(["K", "K_prime", "none"])
+    K0 = case["K"] if via == "none" else case["K"] * rng.choice([0.7, 1.25, rng.uniform(0.5, 1.6)])
+    case["history"] = {"Kp0": Kp0, "K0": K0, "via": via, "warm": 1.5 * case["Rm"]}
+    return case
+
+
 # ------------------------------------------------------------------ the property
 class C06(Prop):
     ID = "C06"
@@ -207,7 +240,7 @@ class C06(Prop):
             "/ at the ends of the bracket, at zero stress and for negative arguments; extended Neuber forward and backward values vs "
             "the model's bisection roots within tol + rtol |root|.  Oracle (no Lean): reference root by an independent bisection; "
             "|value - root| <= tol + rtol |root|; |L|/K_p <= |value| <= |L| (within the tolerance); odd; increasing on the grid; "
-            "load(stress(L)) = L; ndarray = Series bit for bit, scalar = array within the tolerance; every element of a vector with zeros as its scalar call (zero -> zero, nan is a failure); a scalar backward call returns the load or raises; a zero load / stress (scalar +0.0, -0.0, or an element of a vector, all four functions of both laws) gives zero, never nan or an error; solver RuntimeErrors counted.  "
+            "load(stress(L)) = L; ndarray = Series bit for bit, scalar = array within the tolerance; every element of a vector with zeros as its scalar call (zero -> zero, nan is a failure); a scalar backward call returns the load or raises; a zero load / stress (scalar +0.0, -0.0, or an element of a vector, all four functions of both laws) gives zero, never nan or an error; a re-used object whose K_p / K' were changed through the setters behaves as a freshly constructed one; solver RuntimeErrors counted.  "
             "Non-trivial = every case in which at least one solver call returned")
     ASSUMPTIONS = [
         "C06: theorems are over the reals about the defining functions as coded (incl. the np.divide fall-backs); what "
@@ -220,6 +253,11 @@ class C06(Prop):
         "C06: a load (stress) of exactly zero belongs to the quantifier ('every load ... both signs'): the stress (load) is zero "
         "(theorem zero_load: the equations are trivially satisfied there); for it a RuntimeError of the solver is a failure, not a "
         "counted solver failure, because nothing has to be solved",
+        "C06: a law's result is a function of its REPORTED parameters (E, K', n', K_p as the object shows them), not of the object's "
+        "history: history cases build an object with other values, use it, set K_p and K' through the setters (`K_p`, `K`, `K_prime`; "
+        "there is no setter for E and n') and require (a) equality with a freshly constructed law within the solver tolerance, (b) all "
+        "other checks (root of the independently evaluated equation for the reported parameters, bracket, ...) and (c) agreement of the "
+        "object's defining functions with the model at the reported parameters in the correspondence",
         "C06: uniqueness is among stresses (loads) of the load's (stress's) sign: F(-s, L) = -F(s, L) and F(s, -L) = F(s, L), the "
         "solver's start value selects the sign",
     ]
@@ -246,15 +284,21 @@ class C06(Prop):
                     c = gen_case(rng, "neuber", Kp, group=g, hi=[3.0, 4.0, 5.0, 6.0])
                     c["tol"] = 1e-4
                     yield c
-        for _ in range(150 if not big else 1500):
-            yield gen_case(rng)
+        # history cases: one object, used, then brought to the reported parameters through the setters
+        for law in ("neuber", "sb"):
+            for Kp in (1.5, 3.5, 10.0):
+                for _ in range(2 if not big else 8):
+                    yield add_history(rng, gen_case(rng, law, Kp))
+        for _ in range(130 if not big else 1500):
+            c = gen_case(rng)
+            yield add_history(rng, c) if rng.random() < 0.25 else c
 
     # -------------------------------------------------------------- running the real code once per case
     def _run(self, case):
         key = json.dumps(case, sort_keys=True)
         if key in self._cache:
             return self._cache[key]
-        if len(self._cache) > 8:
+        if len(self._cache) > 12:
             self._cache.clear()
         law = make_law(case)
         t = case["tol"]
@@ -425,7 +469,47 @@ class C06(Prop):
         return None
 
     # -------------------------------------------------------------- direct property oracle (real code only)
+    def _oracle_history(self, case):
+        """A law's result is a function of its reported parameters, not of the object's history: the re-used object must give
+        what a freshly constructed law with the same parameters gives."""
+        fresh_case = {k: v for k, v in case.items() if k != "history"}
+        used, fresh = self._run(case), self._run(fresh_case)
+        t = case["tol"]
+        name = "neuber" if case["law"] == "neuber" else "seegerbeste"
+        h = case["history"]
+        how = (f"object constructed with K_p={h['Kp0']!r}, K'={h['K0']!r}, used, then set to K_p={case['Kp']!r}"
+               + (f", K'={case['K']!r} (setter {h['via']})" if h["via"] != "none" else ""))
+
+        def flat(r):
+            items = [("array", r["arr"]), ("Series", r["ser"]), ("backward", r["back"])]
+            items += [(f"scalar[{i}]", v) for i, pq in sorted(r["scalar"].items()) for v in pq]
+            z = r.get("zero")
+            if z:
+                items += [("vector with zeros", z["arr"]), ("backward vector with zeros", z["back_arr"])]
+            return items
+        for br in (1, 2):
+            for (label, a), (_l, b) in zip(flat(used[br]), flat(fresh[br])):
+                if a is None or b is None:
+                    continue
+                if isinstance(a, str) or isinstance(b, str):
+                    if a != b and not (isinstance(a, str) and isinstance(b, str)):
+                        self._count(f"{name}_history_one_side_raises")
+                    continue
+                for i, (x, y) in enumerate(zip(a, b)):
+                    if isinstance(x, str) or isinstance(y, str):
+                        continue
+                    self._count(f"{name}_history_values_compared")
+                    if not (x == y or (x != x and y != y) or abs(x - y) <= 2 * (t + t * abs(y))):
+                        return (f"{case['law']} branch {br}, {label}[{i}] (E={case['E']!r}, K'={case['K']!r}, n'={case['n']!r}, K_p={case['Kp']!r}, "
+                                f"rtol=tol={t!r}, loads {case['loads']!r}): the {how} returns {x!r}, a freshly constructed law with the same "
+                                f"parameters {y!r}", f"{name}-history")
+        return None
+
     def oracle(self, case):
+        if case.get("history"):
+            d = self._oracle_history(case)
+            if d:
+                return d
         run = self._run(case)
         t = case["tol"]
         Ls = case["loads"]
